@@ -165,6 +165,9 @@ func genBase(r *simrt.Rand, name string, faulty bool) *Plan {
 	p.Codec = codecs[r.Intn(len(codecs))]
 	p.Header = headers[r.Intn(len(headers))]
 	p.ByName = r.Chance(1, 3)
+	if p.Header == "" && p.Codec != "bytes" && r.Chance(1, 4) {
+		p.Plain = true // the three-argument Listen/Dial forms (registered network and codec names)
+	}
 	ns := 1
 	if r.Chance(1, 4) {
 		ns = 2
